@@ -4,7 +4,7 @@ SPEC = dict(
     proof_module="SimbodyProofs.C29",
     sources=["SimbodyModel/Proto.lean", "SimbodyModel/Spatial.lean", "SimbodyModel/C29.lean",
              "SimbodyProofs/Spatial.lean", "SimbodyProofs/C29.lean", "Drivers/C29.lean"],
-    n=dict(quick=2500, thorough=250000),
+    n=dict(quick=1500, thorough=60000),
     rtol=1e-9, atol=1e-12,
     rule="cases from VERIF_SEED by harness/C29.cpp: bodies are clouds of 3-6 point masses (always physically valid), "
          "plus the limits thin rod (collinear points), disc (coplanar points) and single point mass; random proper rotations, "
